@@ -89,6 +89,19 @@ def classify(name, desc, job):
     return 'safety:' + cls, desc, []
 
 def run_job(job, work, tier, cache_dir, versions):
+    """a function under contract may be looked for under alternative signatures (job['enforce_alt']: [(mangled name, [defines])]): a change of a
+    parameter type gives the function another mangled name, and the contract should still find it"""
+    res = run_job1(job, work, tier, cache_dir, versions)
+    for alt, defs in job.get('enforce_alt', []):
+        if res['status'] == 'inconclusive' and 'is not defined in this translation unit' in res.get('reason', ''):
+            j2 = dict(job, enforce=alt, roots=[alt], defines=list(job.get('defines', [])) + list(defs))
+            if 'thorough' in j2:
+                j2.pop('thorough')
+            res = run_job1(j2, work, tier, cache_dir, versions)
+            res['function'] = alt
+    return res
+
+def run_job1(job, work, tier, cache_dir, versions):
     """returns dict with status in ok|inconclusive and list of obligations"""
     res = dict(job=job['id'], src=job['src'], function=job['enforce'], status='ok', reason='', obligations=[], seconds={},
                cache_hit=False, mode='B (generated harness, plain cbmc)', backend='cbmc ' + versions.get('cbmc', '') + ' / MiniSat (default SAT)')
